@@ -525,6 +525,7 @@ pub fn run(cfg: &MatrixCfg, rec: &mut Recorder) {
     { let ix = w.ix_delete_token_badge("C1", "TB"); step(&mut w, rec, cfg, &mut n, ix); }
     { let ix = w.ix_set_token_badge_authority("C1", "U3"); step(&mut w, rec, cfg, &mut n, ix); }
     { let ix = w.ix_set_config_extension_authority("C1", "U3"); step(&mut w, rec, cfg, &mut n, ix); }
+    { let ix = w.ix_set_config_feature_flag("C1", false); step(&mut w, rec, cfg, &mut n, ix); }
     { let ix = w.ix_set_config_feature_flag("C1", true); step(&mut w, rec, cfg, &mut n, ix); }
     // ---- position life cycle: lock / transfer locked / close / reset range / bundles
     let ix = w.ix_lock_position("X6", "U1");
